@@ -132,6 +132,7 @@ func checkC06(ctx *Ctx, r *Report) {
 	c06NullableCarried(ctx, r, chains)
 	c06FieldRetypeCarries(ctx, r, chains)
 	c06NumericNameTest(ctx, r)
+	c06EnumMemberNamesVerbatim(ctx, r)
 	c06NameDecisions(ctx, r)
 	c06NullUnionBothOrders(ctx, r)
 	c06NullableGuardExact(ctx, r)
@@ -1409,4 +1410,74 @@ func c06NumericNameTest(ctx *Ctx, r *Report) {
 	r.Check(bad == "", "normalform/numeric-name-test", "RenameNumericEnumValues recognises every number literal", at,
 		"no integer-only parser decides what a numeric name is",
 		"the pass decides that a member name is numeric with "+bad+": names such as 1.0, 0.5 or 99999999999999999999 are not integers of the word size and stay purely numeric — Python gets `1.0 = \"1.0\"` (SyntaxError), TypeScript `enum V { 10 = \"1.0\" }`")
+}
+
+// c06EnumMemberNamesVerbatim: member names are rewritten by the passes made for it (PrefixEnumValues,
+// RenameNumericEnumValues, SanitizeEnumMemberNames, PrefixObjectNames), which know about signs and separators. Any
+// other pass that builds an EnumValue from another one copies the name as it is: a lossy formatter applied early
+// (`UpperCamelCase("-1") == "1"`) makes two members collide before the renaming pass can tell them apart.
+func c06EnumMemberNamesVerbatim(ctx *Ctx, r *Report) {
+	p := ctx.Pkg("internal/ast/compiler")
+	enumValueT := ctx.LookupType("internal/ast", "EnumValue")
+	if p == nil || enumValueT == nil {
+		r.Undecided("anchor lost: compiler / ast.EnumValue")
+		return
+	}
+	renaming := map[string]bool{"PrefixEnumValues": true, "RenameNumericEnumValues": true, "SanitizeEnumMemberNames": true, "PrefixObjectNames": true, "ConstantToEnum": true, "DisjunctionOfConstantsToEnum": true}
+	info := p.TypesInfo
+	n := 0
+	ctx.AllFuncDecls(func(pk *packages.Package, fd *ast.FuncDecl, obj *types.Func) {
+		if pk != p || fd.Body == nil || fd.Recv == nil {
+			return
+		}
+		sig, _ := obj.Type().(*types.Signature)
+		if sig == nil || sig.Recv() == nil {
+			return
+		}
+		recv := namedOf(sig.Recv().Type())
+		if recv == nil || renaming[recv.Obj().Name()] {
+			return
+		}
+		seen := 0
+		ast.Inspect(fd.Body, func(m ast.Node) bool {
+			cl, ok := m.(*ast.CompositeLit)
+			if !ok {
+				return true
+			}
+			if t := info.TypeOf(cl); t == nil || namedOf(t) == nil || namedOf(t).Obj() != enumValueT.Obj() {
+				return true
+			}
+			for _, el := range cl.Elts {
+				kv, ok := el.(*ast.KeyValueExpr)
+				if !ok {
+					continue
+				}
+				if k, _ := kv.Key.(*ast.Ident); k == nil || k.Name != "Name" {
+					continue
+				}
+				// only members built from another member
+				fromMember := false
+				ast.Inspect(kv.Value, func(q ast.Node) bool {
+					if sel, ok := q.(*ast.SelectorExpr); ok && sel.Sel.Name == "Name" {
+						if ff := fieldOf(info, sel); ff != nil && namedOf(info.TypeOf(sel.X)) != nil && namedOf(info.TypeOf(sel.X)).Obj() == enumValueT.Obj() {
+							fromMember = true
+						}
+					}
+					return true
+				})
+				if !fromMember {
+					continue
+				}
+				n++
+				seen++
+				_, isCall := ast.Unparen(kv.Value).(*ast.CallExpr)
+				cons := fmt.Sprintf("%s copies an enum member #%d", ctx.FuncName(obj), seen)
+				r.Check(!isCall, "normalform/enum-member-names-verbatim", cons, kv.Pos(), "the name of the member is copied as it is",
+					"the pass builds an enum member whose name is "+exprString(kv.Value)+": a formatter applied before the renaming passes loses what they need (the sign of -1, the difference between a_b and a-b) — two members get the same name and the generated Go does not compile")
+			}
+			return true
+		})
+	})
+	r.Count("enum members copied by non-renaming passes", n)
+	r.Floor("enum members copied by non-renaming passes", 1)
 }
